@@ -7,22 +7,23 @@ experiments.simulation (Simulation.run) against the Lean model `Opda.Exp` (drive
 (b) get_approximation_parameters on strictly concave quadratics f(x) = b - (x-x*)^T A (x-x*)/2, A = Q diag(lam) Q^T
     (diagonal: Q = 1; rotated: Q Haar-ish orthogonal), d = 1..6, with a box that contains the level ellipsoid
     {f >= y0}, y0 = b - t0.  differential_evolution / autograd.hessian / np.linalg.eigvals are black boxes:
-      * c == d exactly; b is the maximum of f to the optimiser's accuracy (1e-6 relative to max(1,|b|), never above it);
+      * c == d exactly; b is the maximum of f to the optimiser's accuracy (1e-7 relative to max(1,|b|), never above it);
       * a against the Lean model `exp.params` fed with the *returned* b (the optimiser's public output), the generated
         eigenvalues and the bounds: 1e-9 relative + jitter allowance;
       * THE PROPERTY: for levels y in [max(a, y0), b] (level ellipsoid inside the box; theorem tail_exact_uniform),
         P[f(X) > y] for X uniform on the box -- computed independently and exactly as the closed-form volume ratio
         V_d (2(b-y))^(d/2) / sqrt(prod lam) / vol(box) from the generated eigenvalues with mpmath -- equals
-        1 - QuadraticDistribution(a, b, c, convex=False).cdf(y) (tolerance 1e-6 absolute: the optimiser locates b only
+        1 - QuadraticDistribution(a, b, c, convex=False).cdf(y) (tolerance 1e-7 absolute: the optimiser locates b only
         to about 1e-8; the formula itself is compared at 1e-9 through the model).  A Sobol estimate of the same
         probability is a sanity figure for the oracle only (a miss is reported as a broken oracle, never a violation).
       * in d = 1 with the optimum centred the box *is* the level set {f >= a}: the literal statement (all y in [a,b]).
       * ValueError for malformed bounds.
 (c) Simulation.run on make_damped_linear_sin objectives: documented shapes, ns, echo of the arguments, every point
     inside the bounds, yss == func(xss) recomputed, xs/ys equal to the first trial, yss_cummax equal to the model's
-    running maximum *exactly* (driver op exp.sim on the exact values), y_min <= yss <= y_max up to 1e-9 (a miss is a
-    violation only if scipy's differential_evolution, re-run with independent seeds, reliably locates the optimum of
-    that objective -- the exclusion the property states), y_min/y_max equal func at y_argmin/y_argmax, identical
+    running maximum *exactly* (driver op exp.sim on the exact values), y_min <= yss <= y_max up to 1e-9 (a miss is the
+    optimiser's -- the exclusion the property states, counted as skipped -- exactly if the reported y_argmin / y_argmax
+    are genuine local optima of func, i.e. results of the polished optimiser; otherwise it is a violation),
+    y_min/y_max equal func at y_argmin/y_argmax, identical
     results and final generator states for generators in identical states, the supplied generator is advanced,
     ValueError for malformed bounds.
 """
@@ -35,8 +36,8 @@ import numpy as np
 import common as C
 
 TOL_MODEL = 1e-9      # Float model vs implementation (relative), plus the jitter allowance
-TOL_B = 1e-6          # b vs the true maximum: accuracy of the black-box optimiser, relative to max(1, |b|)
-TOL_TAIL = 1e-6       # P[f(X) > y] vs 1 - cdf(y): absorbs the optimiser's error in b (levels keep b - y >= 0.05 t0)
+TOL_B = 1e-7          # b vs the true maximum: accuracy of the black-box optimiser (polish ftol 2.2e-9), relative to max(1, |b|)
+TOL_TAIL = 1e-7       # P[f(X) > y] vs 1 - cdf(y): absorbs the optimiser's error in b (levels keep b - y >= 0.05 t0)
 TOL_RANGE = 1e-9      # property: y_min <= yss <= y_max up to 1e-9
 ULP = 2.0 ** -52
 TOL_EXACT_ULPS = 64   # ellipse_volume vs the exact formula: rounding of pow, gamma and d multiplications
@@ -300,7 +301,7 @@ def run_params(rep, rng, drv, tier, analytic):
         rep.case(("params_b", d, q["np_seed"]))
         worst("b_vs_true_maximum_rel", abs(br - q["b"]) / max(1.0, abs(q["b"])))
         if abs(br - q["b"]) > TOL_B * max(1.0, abs(q["b"])) or br > q["b"] + 64 * ULP * max(1.0, abs(q["b"])):
-            rep.violate(what="b is not the maximum of f (differs by more than 1e-6, or exceeds it)", input=inp,
+            rep.violate(what="b is not the maximum of f (differs by more than 1e-7 relative, or exceeds it)", input=inp,
                         expected=q["b"], observed=br, call=REPLAY_SNIPPET)
             continue
         eigs = [-l for l in q["lam"]]
@@ -308,7 +309,7 @@ def run_params(rep, rng, drv, tier, analytic):
         # levels with the ellipsoid inside the box: y = b - s t0, s in (0, 1]; plus y = b
         ss = [1.0, rng.uniform(0.05, 1.0), rng.uniform(0.05, 1.0), rng.uniform(0.05, 0.3), rng.uniform(0.7, 1.0)]
         ys = [q["b"] - s * q["t0"] for s in ss]
-        ys = [max(y, ar) for y in ys] + [br]
+        ys = [max(y, ar) for y in ys] + [q["b"]]       # the top level is the true maximum (>= the returned b): both tails vanish
         reqs.append(("exp.params", f"{C.fhex(br)} {C.flist(eigs)} {d} {bl}"))
         reqs.append(("exp.tail", f"{C.fhex(br)} {C.flist(eigs)} {d} {bl} {C.flist(ys)}"))
         meta.append((q, f, a, ar, br, int(c), ys, inp))
@@ -353,7 +354,7 @@ def run_params(rep, rng, drv, tier, analytic):
             if not abs(tc - pe) <= TOL_TAIL:
                 tail_bad = True
                 rep.violate(what="P[f(X) > y] (exact volume ratio, level ellipsoid inside the box) differs from "
-                            "1 - QuadraticDistribution(a, b, c, convex=False).cdf(y) by more than 1e-6",
+                            "1 - QuadraticDistribution(a, b, c, convex=False).cdf(y) by more than 1e-7",
                             input=dict(inp, y=y, y_hex=C.fhex(y), returned=[ar, br, c]), expected=pe, observed=float(tc),
                             call=REPLAY_SNIPPET + "; 1 - QuadraticDistribution(a, b, c, convex=False).cdf(y)")
             if rt is not None:
@@ -384,7 +385,7 @@ def run_params(rep, rng, drv, tier, analytic):
         # ---- sanity figure for the oracle: scrambled Sobol estimate of P[f(X) > y0]
         if k % 4 == 0:
             y0 = max(q["b"] - q["t0"], ar)
-            pts = qmc.Sobol(d, scramble=True, seed=q["np_seed"]).random_base2(12)
+            pts = qmc.Sobol(d, scramble=True, seed=q["np_seed"]).random_base2(14)
             X = np.array(q["lo"]) + (np.array(q["hi"]) - np.array(q["lo"])) * pts
             pq = float(np.mean(f(X) > y0))
             pe = exact_tail(q, y0)
@@ -394,7 +395,7 @@ def run_params(rep, rng, drv, tier, analytic):
                 rep.disagree(op="oracle", note="the closed-form probability disagrees with its quasi-Monte-Carlo estimate "
                              "(the harness's oracle is wrong)", input=dict(inp, y=y0), exact=pe, sobol=pq)
             elif len(rep.notes) < 3:
-                rep.notes.append(f"sanity: d={d} {q['kind']} P[f(X)>y0] exact {pe:.6f} vs Sobol(4096) {pq:.6f}")
+                rep.notes.append(f"sanity: d={d} {q['kind']} P[f(X)>y0] exact {pe:.6f} vs Sobol(16384) {pq:.6f}")
 
     # malformed bounds raise ValueError before anything else happens
     f1 = make_quadratic("diag", [1.0, 1.0], np.eye(2), [0.0, 0.0], 0.0)
@@ -450,22 +451,19 @@ def sim_call(s):
             f"{s['n_samples']}, {s['n_dims']}, f, {s['bounds']!r}, generator=np.random.default_rng({s['seed']}))")
 
 
-def optimiser_locates(func, bounds, target_min, target_max, adj_seed):
-    """does scipy's differential_evolution (the built-in optimiser, default settings) reliably locate both global optima of
-    this objective?  Six independent runs each way, compared with the best value seen anywhere."""
-    from scipy import optimize
+def locally_optimal(func, bounds, x, sign, adj_seed):
+    """is the reported optimum `x` at least a *local* optimum of `sign * func` (maximum for sign = +1) on the box?
+    differential_evolution polishes its result, so what it returns is a local optimum (to about 1e-9 in value) even when it
+    misses the global one; a reported point that nearby points beat by more than 1e-6 did not come from the optimiser."""
     g = np.random.default_rng(adj_seed)
-    b = np.array(bounds)
-    X = b[:, 0] + (b[:, 1] - b[:, 0]) * g.uniform(size=(100000, len(bounds)))
-    Y = func(X)
-    mins, maxs = [float(Y.min())], [float(Y.max())]
-    runs_min, runs_max = [], []
-    for _ in range(6):
-        runs_min.append(float(func(optimize.differential_evolution(func, bounds=b, seed=g).x)))
-        runs_max.append(float(func(optimize.differential_evolution(lambda x: -func(x), bounds=b, seed=g).x)))
-    best_min = min(mins + runs_min + [target_min])
-    best_max = max(maxs + runs_max + [target_max])
-    return (all(v <= best_min + TOL_RANGE for v in runs_min) and all(v >= best_max - TOL_RANGE for v in runs_max)), best_min, best_max
+    b = np.array(bounds, dtype=float)
+    width = b[:, 1] - b[:, 0]
+    x = np.array(x, dtype=float)
+    best = 0.0
+    for radius in (1e-2, 1e-3):
+        X = np.clip(x + radius * width * g.uniform(-1, 1, size=(3000, len(x))), b[:, 0], b[:, 1])
+        best = max(best, float(np.max(sign * (func(X) - func(x)))))
+    return best <= 1e-6, best
 
 
 def run_sim(rep, rng, drv, tier, simulation):
@@ -535,15 +533,20 @@ def run_sim(rep, rng, drv, tier, simulation):
         lo_gap = float(r1.y_min) - float(np.min(r1.yss))
         hi_gap = float(np.max(r1.yss)) - float(r1.y_max)
         worst("sim_range_excess", max(lo_gap, hi_gap, 0.0))
-        if not (float(r1.y_min) <= float(r1.y_max)) or lo_gap > TOL_RANGE or hi_gap > TOL_RANGE:
-            ok, best_min, best_max = optimiser_locates(func, s["bounds"], float(np.min(r1.yss)), float(np.max(r1.yss)), s["adj_seed"])
-            if ok:
-                bad("y_min <= yss <= y_max fails by more than 1e-9 although differential_evolution reliably locates the "
-                    "optima of this objective (6/6 independent runs each way)",
-                    expected=dict(y_min_at_most=best_min, y_max_at_least=best_max),
-                    observed=dict(y_min=float(r1.y_min), y_max=float(r1.y_max), min_yss=float(np.min(r1.yss)), max_yss=float(np.max(r1.yss))))
+        obs = dict(y_min=float(r1.y_min), y_max=float(r1.y_max), min_yss=float(np.min(r1.yss)), max_yss=float(np.max(r1.yss)))
+        if not float(r1.y_min) <= float(r1.y_max):
+            bad("y_min > y_max", observed=obs)
+        elif lo_gap > TOL_RANGE or hi_gap > TOL_RANGE:
+            # the property excludes objectives whose global optima the optimiser does not locate: the miss is the optimiser's
+            # (excluded, counted) exactly if what the code reports are genuine local optima, i.e. results of the optimiser
+            ok_min, beat_min = locally_optimal(func, s["bounds"], r1.y_argmin, -1.0, s["adj_seed"])
+            ok_max, beat_max = locally_optimal(func, s["bounds"], r1.y_argmax, +1.0, s["adj_seed"] + 1)
+            if (lo_gap > TOL_RANGE and not ok_min) or (hi_gap > TOL_RANGE and not ok_max):
+                bad("y_min <= yss <= y_max fails by more than 1e-9 and the reported optimum is not even a local optimum of func "
+                    "(nearby points beat it by more than 1e-6): it is not what the optimiser located",
+                    observed=dict(obs, nearby_points_below_y_min_by=beat_min, nearby_points_above_y_max_by=beat_max))
             else:
-                rep.skip("sim_range_objective_whose_optima_the_optimiser_does_not_reliably_locate")
+                rep.skip("sim_range_optimiser_returned_a_local_or_imprecise_optimum")
         # ---- identical results for generators in identical states; the supplied generator is the one that is used
         diff = [k for k in ARRAY_FIELDS if not np.array_equal(getattr(r1, k), getattr(r2, k))]
         if diff or float(r1.y_min) != float(r2.y_min) or float(r1.y_max) != float(r2.y_max):
@@ -631,8 +634,8 @@ def run(seed, tier, replay=None):
                          "real part (the property does not constrain the dtype)" % rep.hist["a_returned_with_complex_dtype"])
     return rep.result(
         rule="ellipse_volume within 64 ulps of the exact formula (mpmath), permutation invariant, homogeneous (bit-exact for 2^k); "
-             "c == d; b within 1e-6 of the true maximum; a within 1e-9 (relative) of the Lean model fed with the returned b; "
-             "exact P[f(X)>y] (closed-form volume ratio) within 1e-6 of 1-cdf(y) at levels whose ellipsoid lies in the box; "
+             "c == d; b within 1e-7 of the true maximum; a within 1e-9 (relative) of the Lean model fed with the returned b; "
+             "exact P[f(X)>y] (closed-form volume ratio) within 1e-7 of 1-cdf(y) at levels whose ellipsoid lies in the box; "
              "Simulation.run: shapes, bounds, yss=func(xss), first-trial slices, yss_cummax == model exactly, "
              "y_min<=yss<=y_max to 1e-9 (unless the optimiser cannot locate the optima), determinism",
         extra=dict(driver_lines=drv.lines, extra=dict(worst_observed_deviation=dict(WORST))))
